@@ -8,6 +8,7 @@ use crate::ctx::{truncate, Ctx};
 use crate::mon_c13::{graph_of, leak_ns, names, random_taxonomy, reclaim_ns};
 use crate::prng::Rng;
 use crate::refdefs::Graph;
+use libhaystack::defs::namespace::DefDict;
 use libhaystack::defs::namespace::Namespace;
 use libhaystack::val::{Dict, Grid, Ref, Symbol, Value};
 use libhaystack::verif_hooks as hooks;
@@ -75,7 +76,8 @@ pub fn answer(ns: &'static Namespace<'static>, q: &Query) -> String {
         Query::Reflect(tags, probe) => {
             let rec = rec_of(tags);
             let r = ns.reflect(&rec);
-            format!("{}|{}", join(names(r.defs.iter().copied())), r.fits(&Symbol::from(probe.as_str())))
+            // the entity type is part of the answer too (it is derived from the cached inheritance lists)
+            format!("{}|{}|ent={}", join(names(r.defs.iter().copied())), r.fits(&Symbol::from(probe.as_str())), r.entity_type.def_name())
         }
         Query::Relationship(tags, rel, term, target) => {
             let mut rec = Dict::new();
@@ -111,7 +113,22 @@ pub fn oracle(g: &Graph, q: &Query) -> Option<String> {
         Query::Reflect(tags, probe) => {
             let r = g.reflect(tags);
             let fits = r.iter().any(|d| g.fits(d, probe));
-            format!("{}|{}", join(r), fits)
+            // entity type: none when no reflected def fits `entity`; the single most specific one when there is exactly
+            // one; otherwise the graph does not determine it ('*': compared only against the cold namespace)
+            let ent = if !g.defined("entity") {
+                String::new()
+            } else {
+                let ents: Vec<&String> = r.iter().filter(|d| g.fits(d, "entity")).collect();
+                let specific: Vec<&&String> = ents.iter().filter(|d| !ents.iter().any(|o| o != *d && g.inheritance(o).contains(**d))).collect();
+                if ents.is_empty() {
+                    String::new()
+                } else if specific.len() == 1 {
+                    (**specific[0]).clone()
+                } else {
+                    "*".to_string()
+                }
+            };
+            format!("{}|{}|ent={}", join(r), fits, ent)
         }
         _ => return None,
     })
@@ -237,7 +254,11 @@ fn run_trial(grid: Grid, g: &Graph, scripts: Vec<Vec<Query>>, expected_cold: &Ha
                         let key = format!("{q:?}");
                         given.push((key.clone(), a.clone()));
                         if let Some(o) = oracle(&g, q) {
-                            if o != a {
+                            let same = match o.strip_suffix("|ent=*") {
+                                Some(head) => a.rsplit_once("|ent=").map_or(false, |(h, _)| h == head),
+                                None => o == a,
+                            };
+                            if !same {
                                 wrong.push((q.clone(), a.clone(), o, "graph oracle".to_string()));
                             }
                         }
